@@ -46,7 +46,10 @@ class C17(scen.WorldProp):
             # size changes before / between touches
             for _ in range(rng.choice([0, 0, 1, 2])):
                 n2 = rng.choice([4, 5, 6, 8, 10, 12, 16])
-                events.append([t - 0.4, "msg", {"m": "size_change", "size": n2}])
+                # (the size arrives as a size message, or - a missed message, a reconnection - only as the length of
+                # the next global state)
+                events.append([t - 0.4, "msg", {"m": "size_change", "size": n2} if rng.random() < 0.7
+                               else {"m": "global_state", "state": [True] * n2}])
                 sizes.append(n2)
                 t += 0.1
             cur = sizes[-1]
@@ -65,7 +68,8 @@ class C17(scen.WorldProp):
                 events.append([t0 - 0.7, "msg", {"m": "row_gen", "json": js, "model_gen": queued}])
                 if rng.random() < 0.5:
                     n3 = rng.choice([4, 6, 8, 12])
-                    events.append([t0 - 0.2, "msg", {"m": "size_change", "size": n3}])
+                    events.append([t0 - 0.2, "msg", {"m": "size_change", "size": n3} if rng.random() < 0.7
+                                   else {"m": "global_state", "state": [True] * n3}])
                     cur = n3
             events.append(call(t0, LOOK_TO))
             I = scen.interval(ps, max(cur, 4))
@@ -189,9 +193,10 @@ class C17(scen.WorldProp):
                 if m["m"] == "row_gen":
                     seen = True
                     discarded = False          # (selected again: queued afresh)
-                elif m["m"] == "size_change":
-                    if m["size"] != size:
-                        size = m["size"]
+                elif m["m"] in ("size_change", "global_state"):
+                    new = m["size"] if m["m"] == "size_change" else len(m["state"])
+                    if m["m"] == "global_state" or new != size:      # (a global state always has the queue looked at)
+                        size = new
                         if seen and size < g["stage"]:
                             discarded = True
         stage = g["stage"]
